@@ -13,13 +13,19 @@ def scaled(b, selector, variant):
     if variant == 2:
         # 4-byte text frames carrying one two-byte character each: records and short reads cut inside characters
         frames = [{"t": "f", "op": 1, "fin": 1, "pl": [0xC3, 0xA9]} for _ in range(total // 4)] + [dict(SMALL[1]) for _ in range((total % 4) // 2)]
+    elif variant == 3:
+        frames = [dict(SMALL[0]) for i in range(total // 2)]         # text only: no automatic replies
     else:
         frames = [dict(SMALL[(i + variant) % 2]) for i in range(total // 2)]
-    return {"url": "wss://example.com/" if b['tls'] else "ws://example.com/", "buffer_size": 8, "selector": selector,
+    sc = {"url": "wss://example.com/" if b['tls'] else "ws://example.com/", "buffer_size": 8, "selector": selector,
             "conns": [{"stream": [{"t": "http", "v": "ok"}] + frames}],
             "connect_kwargs": {"ping_rate": 0, "close_timeout": None},
             "transport": {"tls": bool(b['tls']), "rec": b['rec'], "short": b['short'], "bursts": list(b['bursts']),
                           "dts": [1 + (i % 2) for i in range(len(b['bursts']))]}}
+    if variant == 3:
+        # an application thread is blocked in a large send (the peer reads only after it has been read from): reading must not need the write lock
+        sc['writer_blocked'] = True
+    return sc
 
 
 def real_size(tier, seed):
@@ -85,6 +91,8 @@ def run(tier, seed):
             if q and si != (len(jobs) % 3):
                 continue
             jobs.append(scaled(b, sel, si))
+        if len(seen_b) % 4 == 0:
+            jobs.append(scaled(b, 'poll', 3))
     jobs += real_size(tier, seed)
     logs = pipeline.execute(jobs)
     r.evaluations = len(jobs)
